@@ -526,6 +526,13 @@ fn replace_names(input: &str) -> Option<(String, HashMap<String, String>)> {
     let mut cur_name = String::new();
 
     for (kind, c) in CharClasses::new(input.chars()) {
+        // A `$`, a string literal or a comment directly after a name ends that name.
+        if !cur_name.is_empty() && (kind != FullCodeCharKind::Normal || c == '$') {
+            register_metavariable(&mut substs, &mut result, &cur_name, dollar_count);
+            dollar_count = 0;
+            cur_name.clear();
+        }
+
         if kind != FullCodeCharKind::Normal {
             result.push(c);
         } else if c == '$' {
